@@ -49,9 +49,11 @@ theorem verify_spec {T : Nat → Option Block} {s : St} {b : Block} {c : List Bl
       · exact ⟨rfl, rfl, inv, rfl, by intro h; cases h⟩
       · split
         · exact ⟨rfl, rfl, inv, rfl, by intro h; cases h⟩
-        · refine ⟨rfl, rfl, ⟨inv.chain, inv.latest, inv.cache, inv.fut, inv.fromT⟩, rfl, ?_⟩
-          intro _
-          exact contains_lruAdd _ _
+        · split
+          · exact ⟨rfl, rfl, inv, rfl, by intro h; cases h⟩
+          · refine ⟨rfl, rfl, ⟨inv.chain, inv.latest, inv.cache, inv.fut, inv.fromT⟩, rfl, ?_⟩
+            intro _
+            exact contains_lruAdd _ _
 
 /-! ### `removeFromCommonAncestor` -/
 
